@@ -3,8 +3,9 @@
 
    Vocabulary (Model/Switch.v): [run strict e n ops] is the list of observations (results, current
    server, per-server player-list membership, per-server open backend connections, player active) after
-   the login and after each operation of a sequential history; strict = true is the specification,
-   strict = false the code as it is.  [history_ok] is the property's own predicate on such a list:
+   the login and after each operation of a sequential history.  [impl_run] = run true is today's code
+   (/repo after the fixes e5fee55 and 8f6edb6), [spec_run] the specification (the same function),
+   [prefix_run] = run false the code before fix 8f6edb6.  [history_ok] is the property's own predicate on such a list:
    [state_ok] for every observation (exactly one open backend connection iff connected, and it is the
    current server's; the player is in the list of exactly its current server; a player that is gone has
    no server) and [op_ok] for every operation (success => on the destination; AlreadyConnected /
@@ -17,65 +18,87 @@ Import ListNotations.
 
 (* --- sequential histories: every client family, try list, fault script, operation sequence --- *)
 
+(* today's code is the specification on sequential histories (the repaired connect() has no reset) *)
+Lemma C16_seq_impl_is_spec : impl_run = spec_run.
+Proof. exact seq_impl_is_spec. Qed.
+
 (* "For any sequence of connection requests ... to healthy, refusing, kicking or slow backends": the
-   specification satisfies the whole predicate. *)
-Theorem C16_spec_satisfies_property :
-  forall (e : env) (n : nat) (ops : list op), history_ok e n ops (run true e n ops) = true.
+   code's model satisfies the whole predicate. *)
+Theorem C16_impl_satisfies_property :
+  forall (e : env) (n : nat) (ops : list op), history_ok e n ops (impl_run e n ops) = true.
 Proof. exact spec_history_ok. Qed.
-Print Assumptions C16_spec_satisfies_property.
+Print Assumptions C16_impl_satisfies_property.
 
 (* "a player has ... one current backend; ... the previous backend connection is closed, and the player
    appears in the player list of exactly its current server" - at_most_one_current and
    lists_match_current for every observation of every history. *)
 Theorem C16_one_live_backend_and_lists_match :
   forall (e : env) (n : nat) (ops : list op),
-    Forall (fun o => state_ok n o = true) (run true e n ops).
+    Forall (fun o => state_ok n o = true) (impl_run e n ops).
 Proof. exact spec_histories_state_ok. Qed.
 Print Assumptions C16_one_live_backend_and_lists_match.
 
-(* The code equals the specification on every history without requests issued during a flight, so the
-   two theorems above hold for the code there (the remaining difference is finding C16-2). *)
-Theorem C16_impl_equals_spec_off_trigger :
-  forall (e : env) (n : nat) (ops : list op),
-    Forall (fun o => match o with ODuring _ _ => False | _ => True end) ops ->
-    run false e n ops = run true e n ops /\
-    history_ok e n ops (run false e n ops) = true.
-Proof.
-  intros e n ops H. split.
-  - exact (impl_eq_spec_off_trigger e n ops H).
-  - rewrite (impl_eq_spec_off_trigger e n ops H). exact (spec_history_ok e n ops).
-Qed.
-Print Assumptions C16_impl_equals_spec_off_trigger.
-
 (* "requests to the current server or while one is in flight are reported as such without side
-   effects": in the specification a refused request returns the state unchanged ... *)
-Theorem C16_spec_refusal_no_side_effect :
+   effects": a refused request returns the state unchanged. *)
+Theorem C16_refusal_no_side_effect :
   forall (e : env) (t : nat) (s : st) (r : res),
     check_server s t = Some r ->
     connect_raw true e t s = (s, r) /\ connect_ind e t s = (s, RFalse).
 Proof. exact spec_refusal_no_side_effect. Qed.
-Print Assumptions C16_spec_refusal_no_side_effect.
+Print Assumptions C16_refusal_no_side_effect.
 
-(* ... in the code it does not (finding C16-2, reproduced on the real proxy): while Connect(s3) to a
-   backend that never answers is in flight, Connect(s1) is reported InProgress and clears the slot, the
-   following Connect(s2) is let in and switches the player; the property predicate is false on the
-   code's history and true on the specification's. *)
-Theorem C16_refusal_no_side_effect_refuted :
+(* Facts about the code BEFORE fix 8f6edb6 (finding C16-2, fixed): it equalled today's code on every
+   history without requests issued during a flight ... *)
+Theorem C16_prefix_equals_impl_off_trigger :
+  forall (e : env) (n : nat) (ops : list op),
+    Forall (fun o => match o with ODuring _ _ => False | _ => True end) ops ->
+    prefix_run e n ops = impl_run e n ops.
+Proof. exact prefix_eq_impl_off_trigger. Qed.
+Print Assumptions C16_prefix_equals_impl_off_trigger.
+
+(* ... and differed there: while Connect(s3) to a backend that never answers was in flight, Connect(s1)
+   was reported InProgress and cleared the slot, the following Connect(s2) was let in and switched the
+   player; the property predicate is false on the pre-fix history and true on today's. *)
+Theorem C16_prefix_refusal_no_side_effect_refuted :
   map o_res (run false ex_env 4 ex_ops) = [[RNone]; [RInProgress; RSuccess; RErr]] /\
   history_ok ex_env 4 ex_ops (run false ex_env 4 ex_ops) = false /\
   map o_res (run true ex_env 4 ex_ops) = [[RNone]; [RInProgress; RInProgress; RErr]] /\
   history_ok ex_env 4 ex_ops (run true ex_env 4 ex_ops) = true.
-Proof. exact impl_refusal_side_effect_refuted. Qed.
-Print Assumptions C16_refusal_no_side_effect_refuted.
+Proof. exact prefix_refusal_side_effect_refuted. Qed.
+Print Assumptions C16_prefix_refusal_no_side_effect_refuted.
 
 (* --- concurrent requests: every number of requests, every target list, EVERY schedule --- *)
 
-(* Specification threads (checkServer and setInFlightConnection in one critical section), family A,
-   healthy backends, started from the quiescent state "logged in on server 0":
+(* Today's code (two unlocked checkServer calls, then checkAndSetInFlight: check and set in one critical
+   section), family A, healthy backends, started from the quiescent state "logged in on server 0":
    at_most_one_in_flight, the player is in at most one list, at most two open connections (current +
    in flight) at any point of any schedule; and whenever no request is in flight the state is
    consistent: nothing in the slot, the only open connection is the current one, the player is in the
    list of exactly its current server. *)
+Theorem C16_impl_all_schedules :
+  forall (ts : list nat) (sched : list nat),
+    let c := fst (fst (Conc.run (requests impl_request 0 ts) sched start_cst)) in
+    length (c_active c) <= 1 /\
+    length (lists (c_st c)) <= 1 /\
+    length (opened (c_st c)) <= 2 /\
+    (c_active c = [] ->
+     flight (c_st c) = None /\
+     opened (c_st c) = match cur (c_st c) with Some x => [x] | None => [] end /\
+     lists (c_st c) = match cur (c_st c) with Some x => [c_srv x] | None => [] end).
+Proof.
+  intros ts sched c.
+  pose proof (impl_invariant_all_schedules ts sched start_cst cinv_start) as H. fold c in H.
+  split; [exact (cinv_one_in_flight c H)|].
+  split; [exact (proj1 (cinv_lists c H))|].
+  split; [exact (proj2 (cinv_lists c H))|].
+  intros H0. destruct (cinv_quiescent c H H0) as (A & B & C).
+  split; [exact A|]. split.
+  - rewrite B. destruct (cur (c_st c)); reflexivity.
+  - rewrite C. destruct (cur (c_st c)); reflexivity.
+Qed.
+Print Assumptions C16_impl_all_schedules.
+
+(* the same for the specification threads (admission in a single step) *)
 Theorem C16_spec_all_schedules :
   forall (ts : list nat) (sched : list nat),
     let c := fst (fst (Conc.run (requests spec_request 0 ts) sched start_cst)) in
@@ -99,36 +122,43 @@ Proof.
 Qed.
 Print Assumptions C16_spec_all_schedules.
 
-(* The code (checkServer, then setInFlightConnection in a second critical section): refuted.
+(* Facts about the code BEFORE the fixes e5fee55 / 8f6edb6 (finding C16-1, fixed): checkServer, then
+   setInFlightConnection in a second critical section - refuted by schedule.
    proj = (requests in flight, current server, lists, servers of the open connections, results).
-   Two requests interleaved between check and set are both in flight (finding C16-1) ... *)
-Theorem C16_impl_at_most_one_in_flight_refuted :
-  proj (Conc.run [impl_request 0 1; impl_request 1 2] [0; 0; 1; 1; 0; 1] start_cst)
+   Two requests interleaved between check and set were both in flight ... *)
+Theorem C16_prefix_at_most_one_in_flight_refuted :
+  proj (Conc.run [prefix_request 0 1; prefix_request 1 2] [0; 0; 1; 1; 0; 1] start_cst)
   = ([1; 0], Some 0, [0], [2; 1; 0], []).
-Proof. exact impl_two_in_flight_refuted. Qed.
-Print Assumptions C16_impl_at_most_one_in_flight_refuted.
+Proof. exact prefix_two_in_flight_refuted. Qed.
+Print Assumptions C16_prefix_at_most_one_in_flight_refuted.
 
 (* ... run to completion: both report Success, two backend connections stay open and the player is in
-   two lists (observed on the real proxy) ... *)
-Theorem C16_impl_one_live_backend_refuted :
-  proj (Conc.run [impl_request 0 1; impl_request 1 2] [0; 0; 1; 1; 0; 1; 0; 1; 0; 1; 0; 1] start_cst)
+   two lists (was observed on the real proxy) ... *)
+Theorem C16_prefix_one_live_backend_refuted :
+  proj (Conc.run [prefix_request 0 1; prefix_request 1 2] [0; 0; 1; 1; 0; 1; 0; 1; 0; 1; 0; 1] start_cst)
   = ([], Some 2, [2; 1], [2; 1], [(0, RSuccess); (1, RSuccess)]).
-Proof. exact impl_two_live_refuted. Qed.
-Print Assumptions C16_impl_one_live_backend_refuted.
+Proof. exact prefix_two_live_refuted. Qed.
+Print Assumptions C16_prefix_one_live_backend_refuted.
 
-(* ... and a request refused as InProgress clears the slot of the running one, so a third request is
+(* ... and a request refused as InProgress cleared the slot of the running one, so a third request was
    let in next to it. *)
-Theorem C16_impl_refusal_starts_next_refuted :
-  proj (Conc.run [impl_request 0 1; impl_request 1 2; impl_request 2 2]
+Theorem C16_prefix_refusal_starts_next_refuted :
+  proj (Conc.run [prefix_request 0 1; prefix_request 1 2; prefix_request 2 2]
                  [0; 0; 0; 1; 1; 1; 1; 2; 2; 2] start_cst)
   = ([2; 0], Some 0, [0], [2; 1; 0], [(1, RInProgress)]).
-Proof. exact impl_refusal_starts_next_refuted. Qed.
-Print Assumptions C16_impl_refusal_starts_next_refuted.
+Proof. exact prefix_refusal_starts_next_refuted. Qed.
+Print Assumptions C16_prefix_refusal_starts_next_refuted.
 
-(* Non-vacuity: the start state satisfies the invariant's premises, a concrete schedule of the
-   specification threads lets one request in, refuses the other and completes the switch; a concrete
-   1.20.2+ history (kick in configuration after the old server was left, fallback walk over a server that
-   kicks in login, a switch, a kick from the current server, a refusal) satisfies the predicate. *)
+(* Non-vacuity: the start state satisfies the invariant's premises; the interleaving that broke the
+   pre-fix code is harmless for today's code (the second request is refused at checkAndSetInFlight); a
+   concrete schedule of the specification threads; a concrete 1.20.2+ history (kick in configuration
+   after the old server was left, fallback walk over a server that kicks in login, a switch, a kick
+   from the current server, a refusal) satisfies the predicate. *)
+Example C16_impl_schedule_example :
+  proj (Conc.run [impl_request 0 1; impl_request 1 2] [0; 0; 1; 1; 0; 1; 0; 1; 0; 1] start_cst)
+  = ([], Some 1, [1], [1], [(1, RInProgress); (0, RSuccess)]).
+Proof. exact impl_same_schedule. Qed.
+
 Example C16_spec_schedule_example :
   proj (Conc.run [spec_request 0 1; spec_request 1 2] [0; 1; 0; 1; 0; 1] start_cst)
   = ([], Some 1, [1], [1], [(1, RInProgress); (0, RSuccess)]).
@@ -137,8 +167,8 @@ Proof. exact spec_same_schedule. Qed.
 Example C16_history_example :
   let e := mkEnv FamB [0; 1] [[BAccept; BKickLogin]; [BAccept; BAccept]; [BKickConfig; BAccept]] in
   let ops := [OConnect 1; OConnectInd 2; OConnect 0; OKick; OConnect 1] in
-  map (fun o => (o_res o, o_cur o)) (run true e 3 ops)
+  map (fun o => (o_res o, o_cur o)) (impl_run e 3 ops)
   = [([RNone], Some 0); ([RSuccess], Some 1); ([RFalse], Some 1); ([RSuccess], Some 0);
      ([RNone], Some 1); ([RAlready], Some 1)]
-  /\ history_ok e 3 ops (run true e 3 ops) = true.
+  /\ history_ok e 3 ops (impl_run e 3 ops) = true.
 Proof. vm_compute. split; reflexivity. Qed.
